@@ -369,8 +369,7 @@ def DECIMAL(text, base):
     if isinstance(base, error.XLError):
         return base
     try:
-        dec = int(text, base)
-        return (dec - 1099511627776) if (dec >= 549755813888) else dec
+        return int(text, base)
     except ValueError:
         return error.VALUE
 
